@@ -107,5 +107,17 @@ for trace, disp in (([0.8, 0.3, 0.1], [2e-9 / 1e-3, 600e-9]), ([0.5, -0.4, 0.2, 
             arc = np.trapz(np.sqrt(1 + np.polyval(np.polyder(trace), xs_) ** 2), xs_)       # signed: x < 0 gives a negative arc
             d_.check(bool(abs(y - np.polyval(trace, x)) < 1e-12 and abs(arc - dist) < 1e-6 * max(1e-3, abs(dist))),
                      {'trace': trace, 'wavelength': wl, 'x': x, 'arc': float(arc), 'distance': float(dist)})
+# the dispersive element is metadata like any other tilt: a wavefront that carries it must propagate, and to the
+# same field as with the plain Tilt plane that produces the same displacement
+for trace, disp in (([1.0, 0.0], [1e-3, 600e-9]), ([0.2, 1.0, 0.0], [1e-3, 600e-9]), ([1.0, 0.0], [1e-2, 1e-3, 600e-9])):
+    with d_.case({'propagated': True, 'trace': trace, 'dispersion': disp}):
+        wl, zf = 650e-9, 10.0
+        pup = lentil.Pupil(amplitude=lentil.circle((48, 48), 15), focal_length=zf, pixelscale=1e-3)
+        t = lentil.DispersiveTilt(trace=trace, dispersion=disp)
+        dx, dy = t.shift(wavelength=wl, xs=0.0, ys=0.0)
+        dx, dy = float(np.ravel(dx)[0]), float(np.ravel(dy)[0])
+        f1 = lentil.propagate_dft(lentil.Wavefront(wl) * pup * t, pixelscale=5e-6, shape=40, oversample=2).field
+        f2 = lentil.propagate_dft(lentil.Wavefront(wl) * pup * lentil.Tilt(x=-dy / zf, y=-dx / zf), pixelscale=5e-6, shape=40, oversample=2).field
+        d_.check(bool(f1.shape == f2.shape and np.allclose(f1, f2, atol=1e-9 * np.abs(f2).max())), {'propagated': True, 'trace': trace, 'dispersion': disp})
 
 emit([a, b, d_])
